@@ -406,13 +406,27 @@ func compare(t *lib.Tie, mon *lib.Monitor, drv *lib.Driver, cases []tcase) {
 	for i, c := range cases {
 		lines[i] = c.line()
 	}
-	model, err := drv.Batch(lines)
+	type batch struct {
+		model []string
+		err   error
+	}
+	done := make(chan batch, 1)
+	go func() {
+		model, err := drv.Batch(lines)
+		done <- batch{model, err}
+	}()
+	codes := make([]string, len(cases))
+	for i, c := range cases {
+		codes[i] = c.runCode()
+	}
+	b := <-done
+	model, err := b.model, b.err
 	if err != nil {
 		t.Fail(err)
 		return
 	}
 	for i, c := range cases {
-		code := c.runCode()
+		code := codes[i]
 		key := c.line()
 		nontrivial := c.A != c.B && c.A != "nil" && c.B != "nil"
 		if strings.HasPrefix(c.Op, "p") {
